@@ -203,15 +203,39 @@ def search(req):
     prev = None
     import time as _t
     t_end = _t.time() + float(req.get("seconds", 15))
-    for i in range(req.get("budget", 3000)):
+    bkeys = [k for k, t in req["types"].items() if t == "bytes"]
+    # systematic phase: for every ordered pair of byte-string parameters, (p, p+t) and (p+t, p) over short strings of a small
+    # alphabet - arguments that are prefixes / suffixes of one another (ordering and framing defects need exactly those)
+    shorts = [bytes(x) for n in (1, 2) for x in __import__("itertools").product([0x00, 0x61, 0x62, 0xff], repeat=n)]
+    systematic = []
+    if len(bkeys) >= 2:
+        for a in bkeys:
+            for b in bkeys:
+                if a != b:
+                    for p_ in shorts[:8] + [b""]:
+                        for t_ in shorts[:12]:
+                            systematic.append((a, b, p_, p_ + t_))
+        rng.shuffle(systematic)
+        systematic = systematic[:1500]
+    for i in range(req.get("budget", 3000) + len(systematic)):
         if _t.time() > t_end:
             return {"ok": True, "found": False, "tried": tried, "reason": "time budget"}
         try:
             args = {k: gen_value(t, rng) for k, t in req["types"].items()}
         except ValueError as e:
             return {"ok": True, "found": False, "reason": str(e), "tried": tried}
-        bkeys = [k for k, t in req["types"].items() if t == "bytes"]
-        if prev is not None and len(bkeys) >= 2 and i % 3 == 1:
+        if i < len(systematic):
+            a, b, va, vb = systematic[i]
+            args[a], args[b] = va, vb
+        elif i % 5 == 2:
+            # history: a preceding call that fails (one argument of the wrong type) must not influence the next call
+            bad = dict(args)
+            bad[rng.choice(sorted(bad))] = rng.choice([None, u"text", 1.5])
+            try:
+                eval(req["func"], NS)(**bad)
+            except BaseException:
+                pass
+        if prev is not None and len(bkeys) >= 2 and i % 3 == 1 and i >= len(systematic):
             # related inputs: the same concatenation split differently / two fields swapped (stateful and framing defects)
             args = dict(prev)
             a, b = rng.sample(bkeys, 2)
@@ -221,7 +245,7 @@ def search(req):
                 args[a], args[b] = cat[:k], cat[k:]
             else:
                 args[a], args[b] = args[b], args[a]
-        if bkeys and i % 7 == 3:
+        if bkeys and i % 7 == 3 and i >= len(systematic):
             a = rng.choice(bkeys)
             args[a] = bytes(rng.choice([0, 1])) + args[a] if False else (b"\x00" + args[a])[: rng.choice([1, 2, 3, 33])]
         prev = dict(args)
